@@ -417,3 +417,5 @@ seed('c01-n-rrtconnect-named-trapped', 'C01', [(RRTCC, "            if (gsc == T
 seed('c03-rrtstar-prune-chains-dropped', 'C03', [(RRTS, "        for (const auto &r : chainsToRecheck)\n            // Add the motion back to the NN struct:\n            nn_->add(r);\n", "")], 'R03j')
 seed('c03-n-rrtstar-prune-chains-while', 'C03', [(RRTS, "        for (const auto &r : chainsToRecheck)\n            // Add the motion back to the NN struct:\n            nn_->add(r);\n", "        while (!chainsToRecheck.empty())\n        {\n            nn_->add(chainsToRecheck.front());\n            chainsToRecheck.pop_front();\n        }\n")], None)
 seed('c03-rrtconnect-flip-dropped', 'C03', [(RRTCC, "            if (gsc == TRAPPED)\n                tgi.start = !tgi.start;\n", "")], 'R03k')
+seed('c04-rrtstar-rewire-no-child-push', 'C04', [(RRTS, "                            nbh[i]->parent->children.push_back(nbh[i]);\n", "")], 'R04g')
+seed('c04-rrtstar-rewire-no-detach', 'C04', [(RRTS, "                            // Remove this node from its parent list\n                            removeFromParent(nbh[i]);\n", "")], 'R04g')
